@@ -312,9 +312,16 @@ def is_identity(goal, seconds=10.0):
                 return False
         except z3.Z3Exception:
             pass
+    if z3.is_true(z3.simplify(goal)):
+        return True
     s = z3.Solver()
+    s.set('timeout', 3000)
     s.add(z3.Not(goal))
-    r, _ = symx.forked_check(s, [], seconds, [])
+    r = str(s.check())             # the seeded points agree: almost surely an identity, settled by normalisation
+    if r == 'unknown':
+        s = z3.Solver()
+        s.add(z3.Not(goal))
+        r, _ = symx.forked_check(s, [], seconds, [])
     return r == 'unsat'
 
 
